@@ -15,7 +15,7 @@ C-ECHO as liveness control) or until the association ends.  Offline checker over
      (decided from the handler log and the peer log, i.e. observed, not assumed).
 
 Mechanism keys:  C20|after-final|<DIMSE>|first=<category>|then=...
-                 C20|no-final|<cause>|<DIMSE>|scp-raised|<Exc>@<function>      C20|no-final|<cause>|<DIMSE>|silent|end=..
+                 C20|no-final|<cause>|<DIMSE>|scp-raised|<Exc>@<function>      C20|no-final|<cause>|<DIMSE>|silent|<service family>
                      cause = documented-behaviour | undocumented-return-shape | undocumented-yield-shape |
                              status-out-of-range | ambiguous-count   (class of the first handler result the documentation
                              does not cover, from the reference walk of the case; never an input value)
@@ -148,7 +148,7 @@ def check(case, obs):
                 det = "no final response; %s escaped ServiceClass.SCP from %s(): %s; association end=%s" % (
                     e["type"], e["where"], e["text"], obs.get("end"))
             else:
-                key = "C20|no-final|%s|%s|silent|end=%s" % (cause, dimse, obs.get("end"))
+                key = "C20|no-final|%s|%s|silent|%s" % (cause, dimse, svc["family"])
                 det = "no final response and no exception seen; association end=%s live=%r" % (obs.get("end"), obs.get("live"))
             add(key, det + "   [handler: %s; %d response(s) before: %s]" % (
                 _brief(case), len(msgs), [_hx(m["status"]) for m in msgs]))
